@@ -603,6 +603,8 @@ impl Container {
 pub enum BufKind {
     /// `&mut [MaybeUninit<T>]` from `Vec::uninit`
     Slice,
+    /// `&mut big[1..1 + len]`: a sub-slice of a larger uninitialised allocation
+    SubSlice,
     /// `&mut VecDeque<MaybeUninit<T>>`
     Deque,
     /// `ArrayViewMut1<MaybeUninit<T>>`
@@ -619,6 +621,7 @@ impl BufKind {
     pub fn name(self) -> &'static str {
         match self {
             BufKind::Slice => "slice",
+            BufKind::SubSlice => "subslice",
             BufKind::Deque => "deque",
             BufKind::NdView => "ndview",
             BufKind::NdStrided => "ndstrided",
@@ -629,6 +632,7 @@ impl BufKind {
     pub fn parse(s: &str) -> Result<BufKind, String> {
         Ok(match s {
             "slice" => BufKind::Slice,
+            "subslice" => BufKind::SubSlice,
             "deque" => BufKind::Deque,
             "ndview" => BufKind::NdView,
             "ndstrided" => BufKind::NdStrided,
